@@ -152,6 +152,8 @@ def cases(tier):
                 yield ('faults', fmt, sc['n'], mp, first, sc['fault_depth'])
     for mp in (1, 2, 3, 5, None):
         yield ('wide-slices', 'zip_pickle', 6, mp)
+    for fmt in ('zip_csv', 'zip_tsv', 'sqlite', 'zip_pickle'):
+        yield ('encoded-labels', fmt)
 
 
 def universe(tier):
@@ -546,6 +548,54 @@ def run_roundtrip(case, ctx):
     ctx.sample({'family': 'roundtrip', 'format': fmt, 'frames': n}, limit=1)
 
 
+def run_encoded_labels(case, ctx):
+    '''labels that are not strings (ints, tuples), written through a label encoder / decoder, with PER-LABEL store configurations that differ from the default
+    (one Frame without its index, one without its column labels): the round trip returns every Frame as written, under its own label'''
+    _, fmt = case
+    to, frm, ext, needs_cfg = FORMATS[fmt]
+    f_a = sf.Frame.from_records([[1, 2], [3, 4]], index=('a', 'b'), columns=('p', 'q'), name=10)          # written WITHOUT its index
+    f_b = sf.Frame.from_records([[5, 6, 7]], index=('z',), columns=('u', 'v', 'w'), name=2)                # default: with index and columns
+    f_c = sf.Frame.from_records([[8, 9], [10, 11], [12, 13]], index=('k', 'l', 'm'), columns=('p', 'q'), name=7)   # written without index (and, where the format allows, without columns)
+    fs = [f_a, f_b, f_c]
+    enc = dict(label_encoder=str, label_decoder=int)
+    no_cols = fmt in ('zip_csv', 'zip_tsv')
+    cfg = sf.StoreConfigMap({
+        10: sf.StoreConfig(include_index=False, index_depth=0, **enc),
+        2: sf.StoreConfig(include_index=True, index_depth=1, **enc),
+        7: sf.StoreConfig(include_index=False, index_depth=0, include_columns=not no_cols, columns_depth=0 if no_cols else 1, **enc),
+    }, default=sf.StoreConfig(index_depth=1, **enc))
+    path = os.path.join(workdir(), f'enc_{os.getpid()}{ext}')
+    if os.path.exists(path):
+        os.remove(path)
+    ctx.transition()
+    ctx.state(('encoded', fmt))
+    ctx.nontriv(('encoded', fmt))
+    info = dict(format=fmt)
+    try:
+        sf.Bus.from_frames(fs, config=cfg).__getattribute__(to)(path, config=cfg)
+        for mp in (None, 1):
+            bus = getattr(sf.Bus, frm)(path, config=cfg, max_persist=mp)
+            if bus.index.values.tolist() != [10, 2, 7]:
+                ctx.violation(f'{fmt}|encoded-labels|labels', **info, got=bus.index.values.tolist())
+                continue
+            for f in fs:
+                g = bus[f.name]
+                exp = f
+                if fmt != 'zip_pickle':
+                    if f.name in (10, 7):
+                        exp = exp.relabel(index=sf.IndexAutoFactory)
+                    if f.name == 7 and no_cols:
+                        exp = exp.relabel(columns=sf.IndexAutoFactory)
+                same = g.shape == exp.shape and g.index.values.tolist() == exp.index.values.tolist() and g.columns.values.tolist() == exp.columns.values.tolist() and g.values.tolist() == exp.values.tolist()
+                if not same:
+                    ctx.violation(f'{fmt}|encoded-labels|frame-differs', **info, label=f.name, max_persist=mp, got=repr((g.shape, g.index.values.tolist(), g.columns.values.tolist(), g.values.tolist())),
+                                  expected=repr((exp.shape, exp.index.values.tolist(), exp.columns.values.tolist(), exp.values.tolist())))
+    except Exception as e:
+        ctx.violation(f'{fmt}|encoded-labels|raises-{type(e).__name__}', **info, error=repr(e))
+    ctx.outcome('encoded-labels')
+    ctx.sample({'family': 'encoded-labels', 'format': fmt}, limit=1)
+
+
 def run_wide_slices(case, ctx):
     '''six Frames; every set of at most two labels loaded beforehand (in either order); then a slice key that spans loaded and deferred Frames; then every
     label read back: whatever a Bus holds or returns for a label is the Frame an eager load returns for it, and never more than max_persist are held'''
@@ -600,4 +650,6 @@ def run_wide_slices(case, ctx):
 def run_case(case, ctx):
     if case[0] == 'wide-slices':
         return run_wide_slices(case, ctx)
+    if case[0] == 'encoded-labels':
+        return run_encoded_labels(case, ctx)
     {'history': run_history, 'faults': run_faults, 'roundtrip': run_roundtrip}[case[0]](case, ctx)
